@@ -1437,7 +1437,7 @@ func corpusWideSecrets() []wcmd {
 // added (each one the witness of an open finding): a node name re-spelled by a later registration
 // (the service row keeps its own spelling), one service name in two letter-case spellings, a
 // mesh-topology row deleted by one proxy although another still declares the pair, a
-// service-defaults entry that loses its Destination, a route written back with a status (stored
+// service-defaults entry that loses its Destination (repaired by 0d0f3e6: must be clean), a route written back with a status (stored
 // hash predates the status), and a secrets row adopted by a re-created, now dialing, peering.
 func corpusWideAudit() []wcmd {
 	mk := func(idx uint64, kind, desc string, data []byte) wcmd {
